@@ -29,4 +29,4 @@ Extraction "model.ml"
   seg_value_h sl_bytes
   md_of html_of
   ListItemOpen ThematicBreakOpen AtxOpenR FenceOpenR FenceContinueR ScanDelimiter CodeSpanParse CodeBlockOpen CodeBlockContinue CodeBlockClose
-  RegexFind ParseBlocksTree ParseTree.
+  RegexFind ParseBlocksTree ParseTree ConvertModel.
